@@ -196,6 +196,31 @@ pub fn modsoup(g: &mut Gen) -> String {
             }
         }
     }
+    if g.bool(1, 3) {
+        // clash template: several modules export overlapping names, imported by wildcard / by name in
+        // a random order; which definition an unqualified call reaches is an ordering decision
+        let mods: Vec<&str> = { let p = g.perm(3); p.iter().take(g.int(2, 3) as usize).map(|i| ["a", "b", "c"][*i]).collect() };
+        let mut s = String::new();
+        for (k, m) in mods.iter().enumerate() {
+            s.push_str(&format!("mod {m} {{\n"));
+            for f in ["x", "y"] {
+                if g.bool(2, 3) {
+                    s.push_str(&format!("  {}fn {f}() {{ {}.0 }}\n", if g.bool(3, 4) { "pub " } else { "" }, 10 * (k + 1) + if f == "x" { 1 } else { 2 }));
+                }
+            }
+            s.push_str("}\n");
+        }
+        let order = g.perm(mods.len());
+        for i in order {
+            match g.below(3) {
+                0 => s.push_str(&format!("use {}::*\n", mods[i])),
+                1 => s.push_str(&format!("use {}::{}\n", mods[i], g.pick(&["x", "y"]))),
+                _ => s.push_str(&format!("use {}::*\nuse {}::{}\n", mods[i], mods[i], g.pick(&["x", "y"]))),
+            }
+        }
+        s.push_str(&format!("fn dsp() {{ {} }}\n", *g.pick(&["x()", "y()", "x() + y()", "x() * 100.0 + y()"])));
+        return s;
+    }
     let mut s = String::new();
     items(g, 0, &mut s, 0);
     s.push_str(&format!("fn dsp() {{ {} }}\n", expr(g)));
